@@ -294,6 +294,14 @@ static cfg_opt_t *cfg_getopt_secidx(cfg_t *cfg, const char *name,
 		return NULL;
 	}
 
+	/* the keys of a free-form section are any strings: a name that looks
+	 * like a path is a key first (and is found again when it is repeated) */
+	if (!index && is_set(CFGF_KEYSTRVAL, cfg->flags)) {
+		opt = cfg_getopt_leaf(cfg, name);
+		if (opt)
+			return opt;
+	}
+
 	while (name && *name) {
 		char *title = NULL;
 		long int i = -1;
